@@ -48,6 +48,30 @@ func cmpAny(rel, fn string) []string {
 	return out
 }
 
+// cmpAnyNil is cmpAny including comparisons against nil.
+func cmpAnyNil(rel, fn string) []string {
+	fd := funcDecl(rel, fn)
+	if fd == nil {
+		return nil
+	}
+	var out []string
+	ast.Inspect(fd.Body, func(n ast.Node) bool {
+		be, ok := n.(*ast.BinaryExpr)
+		if !ok {
+			return true
+		}
+		if be.Op == token.EQL || be.Op == token.NEQ {
+			if id, ok := be.Y.(*ast.Ident); ok && id.Name == "nil" {
+				if x, ok := be.X.(*ast.Ident); ok {
+					out = append(out, x.Name+be.Op.String()+"nil")
+				}
+			}
+		}
+		return true
+	})
+	return out
+}
+
 // firstMakeLen returns N of the first `make([]byte, N)` in a function.
 func firstMakeLen(rel, fn string) int64 {
 	fd := funcDecl(rel, fn)
